@@ -12,6 +12,9 @@ package main
 //verif:intercept os.Rename fwRename
 //verif:intercept os.Remove fwRemove
 //verif:intercept os.Stat fwStat
+//verif:intercept os.Lstat fwLstat
+//verif:intercept os.Readlink fwReadlink
+//verif:intercept path/filepath.EvalSymlinks fwEvalSymlinks
 //verif:intercept os.Chmod fwChmodPath
 //verif:intercept (*os.File).Write fwFileWrite
 //verif:intercept (*os.File).WriteString fwFileWriteString
@@ -43,7 +46,9 @@ import (
 // parseVCL are the real code; the file system is the model below (table B.4
 // of DESIGN.md): every operation may fail (symbolic), every write may be
 // short (symbolic), and after every operation the process may die (symbolic);
-// the formatter's outcome (no output / text F / crash) is symbolic.  An os
+// the formatter's outcome (no output / text F / crash) is symbolic; FILE may be a
+// symbolic link; a path the command creates without O_EXCL may hold the
+// leftover of an earlier interrupted run.  An os
 // function that the model does not know is not intercepted and makes the path
 // unsupported (inconclusive), so another repair strategy is not misjudged.
 
@@ -56,13 +61,21 @@ type fwFile struct {
 
 type fwDied struct{}
 
+type fwHandleState struct {
+	path string // the file the handle refers to (symbolic links resolved at open time)
+	pos  int
+	app  bool
+}
+
 var (
-	fwFS     map[string]*fwFile
-	fwOpen   map[*os.File]string // open handle -> path
-	fwNames  map[*os.File]string // every handle ever returned -> the name it was opened with
-	fwOps    int
-	fwFaults int
-	fwTemps  int
+	fwFS        map[string]*fwFile
+	fwOpen      map[*os.File]*fwHandleState // open handles
+	fwLink      string                      // non-empty: fwLinkPath is a symbolic link to this path
+	fwStale     int                         // leftovers of earlier interrupted runs met so far
+	fwNames     map[*os.File]string         // every handle ever returned -> the name it was opened with
+	fwOps       int
+	fwFaults    int
+	fwTemps     int
 	fwFormatted string
 	fwOutcome   int
 )
@@ -88,10 +101,34 @@ func fwFail(what string) bool {
 	return false
 }
 
-func fwHandle(path string) *os.File {
+const fwLinkPath = "dir/main.vcl"
+
+// fwFollow resolves the one symbolic link of the model.
+func fwFollow(name string) string {
+	if fwLink != "" && name == fwLinkPath {
+		return fwLink
+	}
+	return name
+}
+
+func fwHandle(name, path string, app bool) *os.File {
 	f := &os.File{}
-	fwOpen[f] = path
-	fwNames[f] = path
+	fwOpen[f] = &fwHandleState{path: path, app: app}
+	fwNames[f] = name
+	return f
+}
+
+// fwLeftover: a path the command creates without O_EXCL may already exist - the
+// directory can hold what an earlier, interrupted run left behind (at most once per run).
+const fwStaleData = "LEFTOVER-OF-AN-INTERRUPTED-RUN-xxxxxxxxxxxxxxxxxxxxxxxxxxxxxxxxxxxxxxxxxxxxxxxxxxxxxxxxxxxxxxxxxxxxxxxxxxxxxxxxxxxxxx"
+
+func fwLeftover(path string) *fwFile {
+	if fwStale >= 1 || !nondet.Bool("leftover_"+strconv.Itoa(fwOps+1)) {
+		return nil
+	}
+	fwStale++
+	f := &fwFile{exists: true, data: []byte(fwStaleData)}
+	fwFS[path] = f
 	return f
 }
 
@@ -100,14 +137,18 @@ func fwOpenFile(name string, flag int, perm os.FileMode) (*os.File, error) {
 		fwStep("open")
 		return nil, errors.New("open " + name + ": permission denied")
 	}
-	f := fwFS[name]
+	path := fwFollow(name)
+	f := fwFS[path]
+	if (f == nil || !f.exists) && flag&os.O_CREATE != 0 {
+		f = fwLeftover(path)
+	}
 	if f == nil || !f.exists {
 		if flag&os.O_CREATE == 0 {
 			fwStep("open")
 			return nil, errors.New("open " + name + ": no such file")
 		}
 		f = &fwFile{exists: true}
-		fwFS[name] = f
+		fwFS[path] = f
 	} else if flag&os.O_CREATE != 0 && flag&os.O_EXCL != 0 {
 		fwStep("open")
 		return nil, errors.New("open " + name + ": file exists")
@@ -115,7 +156,7 @@ func fwOpenFile(name string, flag int, perm os.FileMode) (*os.File, error) {
 	if flag&os.O_TRUNC != 0 {
 		f.data = nil
 	}
-	h := fwHandle(name)
+	h := fwHandle(name, path, flag&os.O_APPEND != 0)
 	fwStep("open")
 	return h, nil
 }
@@ -131,26 +172,37 @@ func fwCreateTemp(dir, pattern string) (*os.File, error) {
 	}
 	fwTemps++
 	name := dir + "/" + pattern + strconv.Itoa(fwTemps)
-	fwFS[name] = &fwFile{exists: true}
-	h := fwHandle(name)
+	fwFS[name] = &fwFile{exists: true} // O_EXCL: a new, empty file
+	h := fwHandle(name, name, false)
 	fwStep("createtemp")
 	return h, nil
 }
 
 func fwFileWrite(f *os.File, b []byte) (int, error) {
-	path, ok := fwOpen[f]
+	h, ok := fwOpen[f]
 	if !ok {
 		return 0, errors.New("write: file already closed")
 	}
-	file := fwFS[path]
+	file := fwFS[h.path]
 	n := len(b)
 	var err error
 	if len(b) > 0 && fwFail("write") {
 		n = nondet.IntRange("short_"+strconv.Itoa(fwOps+1), 0, len(b)-1) // short write: file-size limit, disk full
-		err = errors.New("write " + path + ": no space left on device")
+		err = errors.New("write " + h.path + ": no space left on device")
 	}
 	if file != nil && file.exists {
-		file.data = append(file.data, b[:n]...)
+		if h.app {
+			h.pos = len(file.data)
+		}
+		// overwrite from the handle's offset, extending the file when needed
+		for k := 0; k < n; k++ {
+			if h.pos < len(file.data) {
+				file.data[h.pos] = b[k]
+			} else {
+				file.data = append(file.data, b[k])
+			}
+			h.pos++
+		}
 	}
 	fwStep("write")
 	return n, err
@@ -203,8 +255,11 @@ func fwChmodPath(name string, m os.FileMode) error { return fwFileChmod(nil, m) 
 func fwFileName(f *os.File) string { return fwNames[f] }
 
 func fwFileTruncate(f *os.File, size int64) error {
-	path := fwOpen[f]
-	if file := fwFS[path]; file != nil && int(size) <= len(file.data) {
+	h := fwOpen[f]
+	if h == nil {
+		return errors.New("truncate: file already closed")
+	}
+	if file := fwFS[h.path]; file != nil && int(size) <= len(file.data) {
 		file.data = file.data[:size]
 	}
 	fwStep("truncate")
@@ -224,7 +279,7 @@ func fwWriteFile(name string, data []byte, perm os.FileMode) error {
 }
 
 func fwReadFile(name string) ([]byte, error) {
-	f := fwFS[name]
+	f := fwFS[fwFollow(name)]
 	if f == nil || !f.exists {
 		return nil, errors.New("open " + name + ": no such file")
 	}
@@ -241,11 +296,14 @@ func fwRename(oldpath, newpath string) error {
 		fwStep("rename")
 		return errors.New("rename: no such file")
 	}
+	if fwLink != "" && newpath == fwLinkPath {
+		fwLink = "" // rename replaces the link itself, not its target
+	}
 	fwFS[newpath] = src // atomic replace
 	delete(fwFS, oldpath)
-	for h, p := range fwOpen {
-		if p == oldpath {
-			fwOpen[h] = newpath
+	for _, h := range fwOpen {
+		if h.path == oldpath {
+			h.path = newpath
 		}
 	}
 	fwStep("rename")
@@ -253,31 +311,58 @@ func fwRename(oldpath, newpath string) error {
 }
 
 func fwRemove(name string) error {
-	if f := fwFS[name]; f != nil {
+	if fwLink != "" && name == fwLinkPath {
+		fwLink = ""
+	} else if f := fwFS[name]; f != nil {
 		delete(fwFS, name)
 	}
 	fwStep("remove")
 	return nil
 }
 
-type fwInfo struct{ name string }
+type fwInfo struct {
+	name string
+	link bool
+}
 
-func (i fwInfo) Name() string       { return i.name }
-func (i fwInfo) Size() int64        { return 0 }
-func (i fwInfo) Mode() fs.FileMode  { return 0o644 }
+func (i fwInfo) Name() string { return i.name }
+func (i fwInfo) Size() int64  { return 0 }
+func (i fwInfo) Mode() fs.FileMode {
+	if i.link {
+		return 0o777 | fs.ModeSymlink
+	}
+	return 0o644
+}
 func (i fwInfo) ModTime() time.Time { return time.Time{} }
 func (i fwInfo) IsDir() bool        { return false }
 func (i fwInfo) Sys() any           { return nil }
 
 func fwStat(name string) (fs.FileInfo, error) {
-	f := fwFS[name]
+	f := fwFS[fwFollow(name)]
 	if f == nil || !f.exists || fwFail("stat") {
 		fwStep("stat")
 		return nil, errors.New("stat " + name + ": no such file")
 	}
 	fwStep("stat")
-	return fwInfo{name}, nil
+	return fwInfo{name, false}, nil
 }
+
+func fwLstat(name string) (fs.FileInfo, error) {
+	if fwLink != "" && name == fwLinkPath {
+		fwStep("lstat")
+		return fwInfo{name, true}, nil
+	}
+	return fwStat(name)
+}
+
+func fwReadlink(name string) (string, error) {
+	if fwLink != "" && name == fwLinkPath {
+		return fwLink, nil
+	}
+	return "", errors.New("readlink " + name + ": invalid argument")
+}
+
+func fwEvalSymlinks(name string) (string, error) { return fwFollow(name), nil }
 
 // fwFormat: the formatter's outcome is symbolic.
 func fwFormat(f *formatter.Formatter, vcl *ast.VCL) io.Reader {
@@ -293,7 +378,9 @@ func fwFormat(f *formatter.Formatter, vcl *ast.VCL) io.Reader {
 
 type fwResolver struct{ name, data string }
 
-func (r *fwResolver) MainVCL() (*resolver.VCL, error) { return &resolver.VCL{Name: r.name, Data: r.data}, nil }
+func (r *fwResolver) MainVCL() (*resolver.VCL, error) {
+	return &resolver.VCL{Name: r.name, Data: r.data}, nil
+}
 func (r *fwResolver) Resolve(stmt *ast.IncludeStatement) (*resolver.VCL, error) {
 	return nil, errors.New("no include")
 }
@@ -302,17 +389,24 @@ func (r *fwResolver) IncludePaths() []string { return nil }
 
 var FwContents = []string{
 	"sub vcl_recv {\nset req.http.a   =  \"b\";\n}\n", // parseable declarations
-	"set req.http.a = \"1\";\n",                          // statement-only snippet
-	"sub vcl_recv {\n  set req.http.a = \n}\n",           // syntactically invalid
+	"set req.http.a = \"1\";\n",                       // statement-only snippet
+	"sub vcl_recv {\n  set req.http.a = \n}\n",        // syntactically invalid
 }
 
 func VerifFmtWrite() {
 	orig := FwContents[nondet.Choice("content", len(FwContents))]
-	const path = "dir/main.vcl"
-	fwFS = map[string]*fwFile{path: {data: []byte(orig), exists: true}}
-	fwOpen = map[*os.File]string{}
+	const path = fwLinkPath
+	fwOpen = map[*os.File]*fwHandleState{}
 	fwNames = map[*os.File]string{}
-	fwOps, fwFaults, fwTemps = 0, 0, 0
+	fwOps, fwFaults, fwTemps, fwStale = 0, 0, 0, 0
+	fwLink = ""
+	if nondet.Bool("symlink") {
+		// FILE is a symbolic link to a file in another directory
+		fwLink = "real/target.vcl"
+		fwFS = map[string]*fwFile{fwLink: {data: []byte(orig), exists: true}}
+	} else {
+		fwFS = map[string]*fwFile{path: {data: []byte(orig), exists: true}}
+	}
 	fwFormatted = "sub vcl_recv {\n  set req.http.a = \"b\";\n}\n"
 	fwOutcome = nondet.Choice("formatter", 3)
 
@@ -334,7 +428,7 @@ func VerifFmtWrite() {
 	if err != nil {
 		nondet.Debug("runFormat failed")
 	}
-	f := fwFS[path]
+	f := fwFS[fwFollow(path)] // what reading FILE gives afterwards
 	nondet.Assert(f != nil && f.exists, "the file does not exist after fmt -w")
 	if f == nil {
 		return
